@@ -27,6 +27,8 @@ import (
 type front struct {
 	s   *api.Server
 	dir string
+	n   int
+	run *vh.Run
 }
 
 func (f *front) Export(id string, pass []byte) ([]byte, error) {
@@ -38,6 +40,26 @@ func (f *front) Export(id string, pass []byte) ([]byte, error) {
 }
 func (f *front) Import(js, old, np []byte) (string, string, error) {
 	p := filepath.Join(f.dir, "import-me.json")
+	// every other import is preceded by the same request with a path that cannot be imported (missing file, a
+	// directory, a file that is not a keystore): the handler's failure paths see the passphrases too
+	if f.n++; f.n%2 == 1 {
+		bad := filepath.Join(f.dir, "no-such-file.json")
+		switch (f.n / 2) % 3 {
+		case 1:
+			bad = f.dir
+		case 2:
+			bad = filepath.Join(f.dir, "not-a-keystore.json")
+			os.WriteFile(bad, []byte("{\"not\": \"a keystore\"}"), 0o600)
+			defer os.Remove(bad)
+		}
+		_, err := f.s.ImportKeystore(context.Background(), &pb.ImportKeystoreRequest{ImportPath: bad, OldPassphrase: string(old), NewPassphrase: string(np)})
+		if f.run != nil {
+			f.run.Count("api_imports_with_unusable_path", 1)
+			if err == nil {
+				f.run.Count("api_imports_with_unusable_path_accepted(observation)", 1)
+			}
+		}
+	}
 	os.WriteFile(p, js, 0o600)
 	defer os.Remove(p)
 	r, err := f.s.ImportKeystore(context.Background(), &pb.ImportKeystoreRequest{ImportPath: p, OldPassphrase: string(old), NewPassphrase: string(np)})
@@ -95,7 +117,7 @@ func main() {
 				if err != nil {
 					return nil
 				}
-				return &front{s: s, dir: exportDir}
+				return &front{s: s, dir: exportDir, run: run}
 			}
 		},
 		After: func(e *wl.Env) {
